@@ -6,7 +6,7 @@ import "strings"
 // templates + bytecode logic (Layer B), per-opcode stack / scope / ip effects
 // proved against VM.Run's case bodies (Layer G), encoding helpers under contract.
 func genC05(w *World, res *CheckResult) {
-	obls, notes := templateObls(w, func(n string) bool { return !reValueObl.MatchString(n) })
+	obls, notes := templateObls(w, func(n string) bool { return !reValueObl.MatchString(n) && !reC18Tmpl.MatchString(n) })
 	res.Obls = append(res.Obls, obls...)
 	res.Assumptions = append(res.Assumptions, notes...)
 	g := genRun(w)
